@@ -96,8 +96,9 @@ Definition unparent (docid : nid) (o : cobj) : cobj :=
                     e_data_exists := e_data_exists e; e_data_node := e_data_node e; e_first_el := e_first_el e |}
   | OText _ => o
   end.
+(* the entry of `docid` itself stays in the heap but no pointer leads to it *)
 Definition heap_doc (docid : nid) (d : cdoc) : heap :=
-  map (fun kv => (fst kv, unparent docid (snd kv))) (tl (heap_top (doc_cel docid d))).
+  map (fun kv => (fst kv, unparent docid (snd kv))) (heap_top (doc_cel docid d)).
 
 Definition lookup (h : heap) (n : nid) : option cobj :=
   option_map snd (find (fun kv => N.eqb (fst kv) n) h).
